@@ -21,6 +21,7 @@ type ConcKeysCase struct {
 	Keys     []kit.B `json:"keys"`
 	Patterns []kit.B `json:"patterns"` // one per client
 	Rounds   int     `json:"rounds"`
+	Writer   bool    `json:"writer,omitempty"` // another client keeps overwriting the values of the existing keys
 }
 
 func execConcKeys(c ConcKeysCase) kit.Outcome {
@@ -57,7 +58,7 @@ func execConcKeys(c ConcKeysCase) kit.Outcome {
 		sort.Strings(exps[i].want)
 	}
 	var wg sync.WaitGroup
-	fails := make(chan string, len(c.Patterns))
+	fails := make(chan string, len(c.Patterns)+1)
 	start := make(chan struct{})
 	for i, p := range c.Patterns {
 		if exps[i].skip {
@@ -91,8 +92,33 @@ func execConcKeys(c ConcKeysCase) kit.Outcome {
 			}
 		}(i, p)
 	}
+	// a writer that overwrites the values of existing keys: the set of keys, and with it every expected
+	// answer, stays the same, but the keyspace is being written while it is listed
+	stopW := make(chan struct{})
+	var ww sync.WaitGroup
+	if c.Writer {
+		ww.Add(1)
+		go func() {
+			defer ww.Done()
+			<-start
+			for i := 0; ; i++ {
+				select {
+				case <-stopW:
+					return
+				default:
+				}
+				k := c.Keys[i%len(c.Keys)]
+				if res := db.Do([][]byte{[]byte("SET"), []byte(k), []byte(fmt.Sprintf("%d", i))}); res.Panic != "" {
+					fails <- "SET panicked while clients ran KEYS: " + res.Panic
+					return
+				}
+			}
+		}()
+	}
 	close(start)
 	wg.Wait()
+	close(stopW)
+	ww.Wait()
 	select {
 	case f := <-fails:
 		o.Fail = f
@@ -102,9 +128,9 @@ func execConcKeys(c ConcKeysCase) kit.Outcome {
 }
 
 func TestKeysConcurrent(t *testing.T) {
-	kit.Check(t, kit.Spec[ConcKeysCase]{Sub: "conckeys", Quick: 25, Thorough: 600,
+	kit.Check(t, kit.Spec[ConcKeysCase]{Sub: "conckeys", Quick: 25, Thorough: 600, TrackCase: true,
 		Gen: func(t *rapid.T) ConcKeysCase {
-			c := ConcKeysCase{Rounds: rapid.SampledFrom([]int{50, 300}).Draw(t, "rounds")}
+			c := ConcKeysCase{Rounds: rapid.SampledFrom([]int{50, 300}).Draw(t, "rounds"), Writer: rapid.Bool().Draw(t, "writer")}
 			for i, n := 0, rapid.IntRange(6, 40).Draw(t, "nkeys"); i < n; i++ {
 				c.Keys = append(c.Keys, kit.B(genSubject(t)+fmt.Sprintf("%d", i%7)))
 			}
